@@ -20,6 +20,14 @@ CHECKS = {
         text="For each of ~60 (operation, faithful reply stream) scenarios produced by the reference server, the real client is run once per segmentation of the stream into recv() results: every subset of cut positions for replies <=16 bytes (thorough 20), every <=3-cut (thorough 4) subset of the interesting positions otherwise, all-single-byte, x EINTR before one/all pieces. The result must equal the unsegmented one and the value implied by the server's outcomes.",
         note="Trusted: the reply streams of vmc/modelserver.py; recv(n) returns <= n bytes. Segmentations of long replies with more cuts than the bound, away from the interesting positions, are not explored.",
     ),
+    "C06": dict(
+        engine="E1-deviation-bounded-explorer",
+        level="fault_enumeration",
+        technique="stateless exhaustive enumeration of fault plans over every socket-level call (resolve, create, options, TLS wrap, timeouts, connect, send, receive, close) on the real client, socket-lifecycle monitors over the event log of every execution",
+        design_ref="DESIGN.md section 3 / C06",
+        text="Histories op1;op2[;op3];close() x 5 transports (TCP with 1-3 resolved addresses, UNIX, TLS) x option sets (no_delay, keepalive, timeout combinations incl. one-sided, ignore_exc) x {Client, PooledClient, HashClient} x every fault plan with <=1 (quick) / <=2 (thorough) deviations; monitors: never two open sockets per client, no open socket that its client no longer references, nothing open after close(), connect under connect_timeout and I/O under timeout, no I/O on the unwrapped socket under TLS, a fault-free call after any failure reconnects and returns the right answer, a later resolved address is used when socket creation fails for an earlier one.",
+        note=TB + "A socket is open from socket() to close(); every resolved address is served by the same reference server; more than 2 deviations per history not explored.",
+    ),
 }
 
 PENDING = "check not built yet in this session; planned engine and oracle are in DESIGN.md section 3"
